@@ -115,6 +115,22 @@ func (h *dbHook) shouldFail(op string) bool {
 
 var errDriverInjected = errors.New("verif: injected driver failure")
 
+var driverErrSeq struct {
+	mu sync.Mutex
+	n  map[string]int
+}
+
+// nextDriverErr rotates through driverErrors, separately for every kind of driver operation (so that every kind meets every error).
+func nextDriverErr(op string) error {
+	driverErrSeq.mu.Lock()
+	defer driverErrSeq.mu.Unlock()
+	if driverErrSeq.n == nil {
+		driverErrSeq.n = map[string]int{}
+	}
+	driverErrSeq.n[op]++
+	return driverErrors[driverErrSeq.n[op]%len(driverErrors)]
+}
+
 type verifDriver struct{ inner *sqlite3.SQLiteDriver }
 
 func (d *verifDriver) Open(name string) (driver.Conn, error) {
@@ -122,11 +138,24 @@ func (d *verifDriver) Open(name string) (driver.Conn, error) {
 	if err != nil {
 		return nil, err
 	}
-	return &verifConn{inner: c.(*sqlite3.SQLiteConn), h: hookForDSN(name)}, nil
+	ic, ok := c.(sqliteConn)
+	if !ok {
+		return nil, errors.New("verif: the SQLite connection lacks the context-taking driver interfaces")
+	}
+	return &verifConn{inner: ic, h: hookForDSN(name)}, nil
+}
+
+// sqliteConn is what the wrapper needs from mattn/go-sqlite3's connection (named by interface, so that the harness also compiles
+// where cgo, and with it SQLite, is not available: the 32-bit build of the start-up walk).
+type sqliteConn interface {
+	driver.Conn
+	driver.ConnBeginTx
+	driver.ExecerContext
+	driver.QueryerContext
 }
 
 type verifConn struct {
-	inner *sqlite3.SQLiteConn
+	inner sqliteConn
 	h     *dbHook
 }
 
@@ -140,7 +169,7 @@ func (c *verifConn) BeginTx(ctx context.Context, opts driver.TxOptions) (driver.
 	c.h.point("begin", "<")
 	if c.h.shouldFail("begin") {
 		c.h.point("begin", ">")
-		return nil, errDriverInjected
+		return nil, nextDriverErr("begin")
 	}
 	tx, err := c.inner.BeginTx(ctx, opts)
 	if err == nil {
@@ -159,7 +188,7 @@ func (c *verifConn) ExecContext(ctx context.Context, q string, args []driver.Nam
 	c.h.point("exec", "<")
 	if c.h.shouldFail("exec") {
 		c.h.point("exec", ">")
-		return nil, errDriverInjected
+		return nil, nextDriverErr("exec")
 	}
 	r, err := c.inner.ExecContext(ctx, q, args)
 	c.h.point("exec", ">")
@@ -170,7 +199,7 @@ func (c *verifConn) QueryContext(ctx context.Context, q string, args []driver.Na
 	c.h.point("query", "<")
 	if c.h.shouldFail("query") {
 		c.h.point("query", ">")
-		return nil, errDriverInjected
+		return nil, nextDriverErr("query")
 	}
 	r, err := c.inner.QueryContext(ctx, q, args)
 	c.h.point("query", ">")
@@ -193,7 +222,7 @@ func (r *verifRows) Next(dest []driver.Value) error {
 	r.h.point("next", "<")
 	if r.h.shouldFail("next") {
 		r.h.point("next", ">")
-		return errDriverInjected
+		return nextDriverErr("next")
 	}
 	err := r.inner.Next(dest)
 	r.h.point("next", ">")
@@ -214,7 +243,7 @@ func (t *verifTx) Commit() error {
 		t.h.openTx--
 		t.h.mu.Unlock()
 		t.h.point("commit", ">")
-		return errDriverInjected
+		return nextDriverErr("commit")
 	}
 	err := t.inner.Commit()
 	t.h.mu.Lock()
@@ -231,7 +260,7 @@ func (t *verifTx) Rollback() error {
 	t.h.openTx--
 	t.h.mu.Unlock()
 	if t.h.shouldFail("rollback") {
-		err = errDriverInjected // the rollback happened, an error is reported
+		err = nextDriverErr("rollback") // the rollback happened, an error is reported
 	}
 	t.h.point("rollback", ">")
 	return err
